@@ -203,6 +203,10 @@ def check (c):
     dev = max (abs (np.array (m.far_field.e_theta) - e2t).max (), abs (np.array (m.far_field.e_phi) - e2p).max ()) / mx
     judge ('point-moment.angles-changed-in-place', dev, 1e-4, 'Angle objects of the first request changed in place (zenith %+.1f, azimuth -21.5, half the azimuth step) and handed over again: the table deviates %.3g of the maximum from the field in the directions they now describe' % (dz, dev))
     zen.initial, azi.initial, azi.inc = ff ['theta'][0], ff ['phi'][0], ff ['phi'][1]      # ... and changed back
+    # (the last request before the sources change is for the very grid that is asked for afterwards)
+    common.guarded (lambda: m.compute_far_field (zen, azi, pwr = None, dist = 1.0), 'compute_far_field')
+    d = max (np.abs (np.array (m.far_field.e_theta) - et0).max (), np.abs (np.array (m.far_field.e_phi) - ep0).max ()) / mxr
+    judge ('V/m-angles-changed-back', d, 1e-9, 'the first request made again after the Angle objects were changed and changed back differs by %.3g' % d)
     src = [(x.idx, complex (x.voltage)) for x in m.sources]
     m.sources = []
     for j, (idx, v) in enumerate (src):
